@@ -110,3 +110,65 @@ func (k nodeKinds) kindsPossibleAt(b *ssa.BasicBlock, same func(n ssa.Value) boo
 	}
 	return possible
 }
+
+// isCondOperatorFn: every use of fn in the package installs it as the operator of a node literal of kind cond
+// (the `if` / `fi` nodes built by the parser). By R-KIND operators are replaced only for operator/fastOperator
+// nodes, so such a function is applied only by the evaluator's cond arm (C06 R-CONDARG: with a one-element
+// argument literal). Holds for the closure literals of the pinned tree and for named functions alike.
+func isCondOperatorFn(w *World, fn *ssa.Function) bool {
+	k := loadNodeKinds(w)
+	installs := 0
+	var okValue func(v ssa.Value, depth int) bool
+	okUse := func(in ssa.Instruction, v ssa.Value, depth int) bool {
+		switch x := in.(type) {
+		case *ssa.ChangeType:
+			return x.X == v && okValue(x, depth+1)
+		case *ssa.MakeClosure:
+			return x.Fn == v && okValue(x, depth+1)
+		case *ssa.Store:
+			if x.Val != v {
+				return false
+			}
+			tn, fld, base, okf := fieldOf(x.Addr)
+			if !okf || tn != "node" || fld != "operator" {
+				return false
+			}
+			al, isLit := base.(*ssa.Alloc)
+			if !isLit {
+				return false
+			}
+			kc, okk := literalKind(al)
+			if !okk || kc&k.mask != k.cond {
+				return false
+			}
+			installs++
+			return true
+		}
+		return false
+	}
+	okValue = func(v ssa.Value, depth int) bool {
+		if depth > 4 {
+			return false
+		}
+		refs := referrers(v)
+		if len(refs) == 0 {
+			return false
+		}
+		for _, ref := range refs {
+			if !okUse(ref, v, depth) {
+				return false
+			}
+		}
+		return true
+	}
+	sites := w.useSites[fn]
+	if len(sites) == 0 {
+		return false
+	}
+	for _, in := range sites {
+		if !okUse(in, fn, 0) {
+			return false
+		}
+	}
+	return installs > 0
+}
